@@ -1020,7 +1020,7 @@ def allowed(case, res):
 def run(ctx):
     thorough = ctx.tier == "thorough"
     budget = 5.0 if thorough else 2.5
-    ctx.regen("tokenizer", "quote")
+    ctx.regen("tokenizer", "parsetotal")
     ctx.coq_build("props/C01.v")
     binary = ctx.ocaml_build("parsetotal")
 
@@ -1153,13 +1153,18 @@ def replay(ctx, path):
 
 TRUSTED = [
     "Coq 8.16.1 kernel and VM (vm_compute for the finite checks on the generated tables); no native_compute",
-    "translate/tokenizer.py, translate/quote.py (C03's translator: Base._stringtokenvalue -> Gen/Quote.v), regexlib.py",
+    "translate/tokenizer.py, regexlib.py, translate/parsetotal.py (Base._stringtokenvalue -> Gen/StrTokenValue.v, reusing C03's translator class translate.quote.Fn and its Gallina library Quote.v)",
     "extraction (ExtrOcamlBasic) + ocamlfind ocamlopt, ocaml/parsetotal_driver.ml",
     "this harness: generators, the isolated timed worker pool, canonicalisation (exception class + innermost "
     "css_parser frames), the recording fetcher stub",
     "modelled by hand, corresponded at function level: CSSCharsetRule._setCssText, the argument segment of "
     "ColorValue._setCssText, the default callbacks and the dispatch loop of Base._parse; _tokensupto2 = C04's Upto.v",
-    "Section hypothesis handlers_total: every unmodelled rule / declaration callback (import, namespace, font-face, "
+    "C04's Upto.v / UptoFacts.v / Skeleton.v / SkeletonFacts.v (models of _tokensupto2 and of the statement skeleton; their "
+    "correspondence with the code is C04's check)",
+    "Section hypothesis leaves_total (parse_never_raises_skeleton): the eight leaf parsers -- selector list, Property "
+    "(name, ProdParser value grammars, priority, profiles validation), media query list, @import, @namespace, @page, "
+    "@font-face, @variables bodies -- return on every finite token run; validated only end to end by the oracle streams",
+    "Section hypothesis handlers_total (parse_never_raises_partial, the generic statement about Base._parse): every unmodelled rule / declaration callback (import, namespace, font-face, "
     "media, page, variables, unknown rule, rule set; ident, char, unexpected; with everything below them: selectors, "
     "ProdParser value/media grammars, profiles validation, serializer) returns and leaves a suffix of the token "
     "generator -- validated only end to end by the oracle streams",
@@ -1173,7 +1178,9 @@ ASSUME = [
     "PARTIAL: the polynomial-time clause is not a theorem; it is monitored by per-case CPU measurement in isolated "
     "workers with a hard timeout and by pumped families (n doubling) -- a budget overrun or growth above n^4 between "
     "the two largest sizes is reported as a violation",
-    "PARTIAL: parse_never_raises is proved for the modelled layers under handlers_total",
+    "PARTIAL: parse_never_raises is proved for the tokenizer, _tokensupto2, the statement skeleton (top level, rule set, "
+    "declaration loop, @media incl. nesting, @charset, unknown rule) under leaves_total; proved about the time clause on the "
+    "model: tokenize_token_count, skeleton_statement_count (linear iteration counts) -- nothing about the regex engine",
     "for byte input UnicodeDecodeError and the codec's LookupError for an unknown declared encoding count as decoding "
     "errors (allowed by the statement)",
     "a fetcher that feeds an unbounded @import chain (a sheet importing itself) is C20's subject; the stub stops "
